@@ -219,6 +219,10 @@ public:
                     if (type != 0x00)
                     {
                         read_e_name(visitor,jsoncons::bson::bson_container_type::array,ec);
+                        if (JSONCONS_UNLIKELY(ec))
+                        {
+                            return;
+                        }
                         read_value(visitor, type, ec);
                     }
                     else
@@ -348,15 +352,15 @@ private:
         {
             return;
         }
+        auto result = unicode_traits::validate(name_buffer_.data(),name_buffer_.size());
+        if (JSONCONS_UNLIKELY(result.ec != unicode_traits::unicode_errc()))
+        {
+            ec = bson_errc::invalid_utf8_text_string;
+            more_ = false;
+            return;
+        }
         if (type == jsoncons::bson::bson_container_type::document)
         {
-            auto result = unicode_traits::validate(name_buffer_.data(),name_buffer_.size());
-            if (JSONCONS_UNLIKELY(result.ec != unicode_traits::unicode_errc()))
-            {
-                ec = bson_errc::invalid_utf8_text_string;
-                more_ = false;
-                return;
-            }
             visitor.key(jsoncons::basic_string_view<char>(name_buffer_.data(),name_buffer_.length()), *this, ec);
             more_ = !cursor_mode_;
         }
